@@ -15,6 +15,7 @@ mod planparse;
 mod refdft;
 mod sched;
 mod util;
+mod vg;
 mod checks;
 
 use framework::{Ctx, Tier};
@@ -47,6 +48,9 @@ fn main() {
     }
     if id == "c12worker" {
         std::process::exit(checks::c12::worker_main(&args[2..]));
+    }
+    if id == "vgworker" {
+        std::process::exit(vg::worker_main(&args[2..]));
     }
     if id == "memworker" {
         std::process::exit(memcheck::worker_main(&args[2..]));
